@@ -11,7 +11,7 @@ from harness import c07_dispatch as D
 META = {
     "id": "C07",
     "technique": "Coq proof (induction over line lists: _strip_inline_comment vs Python's comment rule, _collect_block vs Python's block rule, round trip of the block-skeleton parser over every layout of the re-layout relation; reflection over the translator-generated line-accounting table) + extracted-model correspondence with the real lexical functions, header regexes and the recorded _parse_simple_lines call tree + CPython tokenize/ast validation of the specification + re-layout metamorphism and line-accounting oracles on the real parse()+emit() with the REDUINO_VERIF hook",
-    "level_text": "Theorems C07_* (coq/Props/C07.v) are proved for all line lists about a Gallina model of the lexical layer of parser.py (Lang/Lex.v) against a hand-written model of Python's layout rules (Lang/PyLayout.v, validated against CPython's tokenizer and ast on every run). Block extent and comment stripping are proved inside explicit guards and refuted outside them by concrete witnesses (column-0 comment, trailing comment on a top-level header or on else/elif/except, mixed tabs, '#' in a triple-quoted literal); the line-accounting table (69 statement kinds x 4 contexts) is regenerated from the current parser and checked by computation against the fixed set of the property plus the listed gaps. The model is run against the real functions on enumerated and generated inputs; the property's own relations (same firmware across layouts; no unlisted line disappears) are evaluated on the real transpiler.",
+    "level_text": "Theorems C07_* (coq/Props/C07.v) are proved for all line lists about a Gallina model of the lexical layer of parser.py (Lang/Lex.v) against a hand-written model of Python's layout rules (Lang/PyLayout.v, validated against CPython's tokenizer and ast on every run). Block extent and comment stripping are proved inside explicit guards and refuted outside them by concrete witnesses (mixed tabs, '#' in a triple-quoted literal); comment-only lines at any column, trailing comments on column-0 headers and on elif/else/except are inside the guards since the repair of the comment handling (fixed findings, replayed on every run); the line-accounting table (69 statement kinds x 4 contexts) is regenerated from the current parser and checked by computation against the fixed set of the property plus the listed gaps. The model is run against the real functions on enumerated and generated inputs; the property's own relations (same firmware across layouts; no unlisted line disappears) are evaluated on the real transpiler.",
     "level_note": "Trusted: Coq kernel, translator harness/gen/dispatch.py (black-box observation of parse+emit), extraction, OCaml driver, CPython tokenize/ast as 'what Python means'. Theorems are about the model; statement-level dispatch (the regex chain inside a line) is observed, not modelled.",
     "design_ref": "DESIGN.md section 4 C07, Appendix B.5",
 }
@@ -87,11 +87,26 @@ def header_cases(rng, progs_lines, thorough):
 def run(ctx: C.Ctx):
     rng = ctx.rng
     thorough = ctx.tier == "thorough"
-    dist = {"leaf_kinds": {}, "units": {}, "exceptions": {}, "dispatch_outcomes": {}}
+    dist = {"leaf_kinds": {}, "units": {}, "exceptions": {}, "dispatch_outcomes": {}, "formerly_excluded_now_generated": {}}
     evaluations = 0
     nontrivial = set()
     samples = []
     have_model = ctx.exe is not None
+
+    # ================================================================ 0. repaired defects (kind "fixed"): suppress nothing.
+    # Their witnesses are replayed first; one that fails again is a VIOLATION whose replay is the witness.
+    for f in ctx.findings:
+        if f.get("kind") != "fixed":
+            continue
+        wit = f.get("witness", {})
+        if wit.get("mode") == "relayout":
+            r = C.run_impl("c07_impl.py", {"cases": [["trace", wit["base"]], ["trace", wit["variant"]]]})
+            evaluations += 1
+            if (r[0]["cpp"] != r[1]["cpp"]) or (r[0]["exc"] != r[1]["exc"]):
+                ctx.fail(f"repaired defect {f['id']} is back: {f['what']}", {"finding": f["id"], "witness": wit},
+                         {"exc": r[0]["exc"], "firmware": _diff_hint(r[0]["cpp"], r[1]["cpp"], True)},
+                         {"exc": r[1]["exc"], "firmware": _diff_hint(r[0]["cpp"], r[1]["cpp"], False)},
+                         key="fixed-defect-returned:" + f["id"])
 
     # ================================================================ programs and layouts
     n_prog = 300 if thorough else 50
@@ -110,6 +125,8 @@ def run(ctx: C.Ctx):
             lt, fj = G.lay_program(rng, tops, u, density=dens, sp=sp)
             inguard.append((pi, u, lt, fj, G.render(lt, fj, u)))
             dist["units"][repr(u)] = dist["units"].get(repr(u), 0) + 1
+            for k, v in G.formerly_excluded(lt, u).items():
+                dist["formerly_excluded_now_generated"][k] = dist["formerly_excluded_now_generated"].get(k, 0) + v
     perturbed = []
     for (_, _, _, _, lines) in inguard:
         if rng.random() < (0.5 if thorough else 0.35):
@@ -332,6 +349,8 @@ def run(ctx: C.Ctx):
     # ================================================================ 6. known findings: replay every listed witness
     replayed = 0
     for f in ctx.findings:
+        if f.get("kind") == "fixed":
+            continue                      # replayed in step 0 (a failing one is a violation, never a known finding)
         wit = f.get("witness", {})
         still = False
         if wit.get("mode") == "relayout":
@@ -361,7 +380,7 @@ def run(ctx: C.Ctx):
         "distinct_nontrivial": len(nontrivial),
         "rule": ("programs: seeded random block trees (depth<=4) of observable statements (distinct numbers in mon.write/x=/sleep, device calls, "
                  "lines of the fixed set: pass/print/import/global/docstrings) with if/elif/else, try/except, while, for-range, def, main loop; "
-                 f"each in canonical layout + {n_lay} random layouts inside the guard (junk lines before any statement, trailing blanks/comments, "
+                 f"each in canonical layout + {n_lay} random layouts inside the guard (junk lines - blank, white-space-only, comment-only at any column from 0 to deeper than the statement - before any statement including elif/else/except, trailing blanks/comments after any statement including column-0 headers, def, the main loop header, imports and elif/else/except, "
                  "indent unit 1-8 spaces / tab / two tabs, optional spacing at marked places) + out-of-guard perturbations (model-vs-code only). "
                  "lexical: exhaustive strings over {a,blank,#,',\",\\} up to length 5 (6 thorough) and over {blank,tab,x,#,FF,NBSP,U+3000} up to length 3 (4), "
                  "realistic lines, every start index of generated scripts for the three span functions, header texts with near-misses. "
@@ -372,8 +391,7 @@ def run(ctx: C.Ctx):
                          "marked_statements_checked": n_marks, "trace_cases": n_trace, "indent_cases": len(icases), "strip_cases": len(scases),
                          "span_cases": 3 * len(span_cases), "regex_cases": len(hcases), "spec_cases": n_spec, "dispatch_rows": len(rows),
                          "known_findings_replayed": replayed},
-        "guard": ("layouts: comment-only lines indented deeper than the enclosing header (deeper than the elif/else/except line itself before such a line); "
-                  "no trailing comment on a column-0 block header nor on elif/else/except; indentation by one unit string (spaces or tabs, not mixed); "
+        "guard": ("layouts: indentation of statements by one unit string (spaces or tabs, not mixed; comment-only lines at any column, any white space); "
                   "one physical line per statement (no continuation, no ';', no multi-line literal); no '#' inside triple-quoted literals; optional spacing only "
                   "around operators, inside call parentheses, before the header colon, after keywords (not between a callee and '(', not around '.', "
                   "not if(/while(/elif( without a blank, not `range (`). accounting: statement kinds outside DispatchSpec.known_gaps."),
@@ -382,7 +400,7 @@ def run(ctx: C.Ctx):
                        "target(...) lines (captured before block detection)",
                        "non-ASCII identifier characters in header regexes (\\w is modelled for ASCII)",
                        "optional spacing inside a statement: checked by the re-layout oracle on the real transpiler only",
-                       "round trip at the level of parse() (column-0 headers, main loop, def, import filter; guard Layout.top_layout_ok): measured on every generated layout (model parse_top of the rendered layout = skeleton), proved only for snippets handed to _parse_simple_lines (C07_roundtrip_partial)"],
+                       "round trip at the level of parse() (column-0 headers, main loop, def, import filter; guard Layout.top_layout_ok): measured on every generated layout (model parse_top of the rendered layout = skeleton); proved are the round trip for snippets handed to _parse_simple_lines (C07_roundtrip_partial) and, at column 0, that a trailing comment on a line changes nothing of what parse() builds (C07_header_trailing_comment_invisible)"],
         "trusted_base": C.COMMON_TRUSTED + ["harness/gen/dispatch.py + harness/c07_dispatch.py (probe scripts; outcome = exception / identical text / different text)",
                                             "CPython 3.12 tokenize + ast as the reference for Lang/PyLayout.v",
                                             "REDUINO_VERIF hook in parser.py (add-only, commit 3ef1d62)",
